@@ -23,9 +23,17 @@ wakers), executed on proxy values over all paths:
                            mask (syntactic check on the generated text)
   testbench order          PySimEngine.advance iterates `_testbenches`, a list appended in add order
                            (ordered-source rule, syntactic)
+Engine level (checks/c08_engine.py): the REAL PySimEngine -- delta-cycle loop, triggers, coroutine scheduler,
+testbench context -- runs natively on symbolic register contents and stimuli (every comparison it makes forks):
+  engine[chain,...]        ctx.set() returns only after all consequences have settled; tick().sample() returns pre-edge
+                           values; a shift chain spread over three fragments has no race; identical for every iteration
+                           order of the engine's process set
+  engine[process=circuit]  an add_process coroutine (combinational / clocked) is observably equal to the circuit it replaces
+  kernel-agrees[design]    the composition model of harness/kernel.py gives the same value on every signal and memory row
+                           as the real engine, from the same arbitrary (consistent) state, after a clock event -- for counter,
+                           FSM, inserters, FF/Async/Pulse synchronisers (simultaneous events included), crc.Processor, Memory,
+                           SyncFIFO, SyncFIFOBuffered; thorough: AsyncFIFO from the states of the C13 invariant
 Bounded stand-ins (never counted as proved): Period constructors are exact for integer arguments.
-The coroutine-scheduler clauses (settle before set() returns, tick/sample ordering, process replacing a
-circuit) are not decided by this technique and are listed as uncovered.
 """
 import ast
 import types
@@ -47,8 +55,11 @@ META = {
     ],
     "assumptions": [
         "widths <= 8, memory depth <= 3, at most 4 timeline wakers (all values)",
-        "not decided: that a testbench write returns only after settling, tick/sample ordering, equivalence of a "
-        "circuit and a process replacing it (coroutine scheduler; outside function-level contracts)",
+        "engine-level clauses (settling before set() returns, tick/sample ordering, process = circuit, order independence of the "
+        "process set) are decided for the enumerated designs / testbenches of checks/c08_engine.py, all values; other testbench "
+        "programs are not decided",
+        "engine level: the simulator modules are run with module-global shims (int/isinstance/range/len) and Const.cast accepting "
+        "proxies; in kernel-agrees the memory state object is its contract proxy (the real class is verified against it above)",
         "memory addresses are case-split by the harness before calling write/read (complete for the depth)",
     ],
     "bounds": {"quick": {"W": 4}, "thorough": {"W": 8}},
@@ -65,6 +76,12 @@ def functions():
     out += [source.describe("amaranth/sim/_pyrtl.py", "edge_waker", arith="exact", bound="-"),
             source.describe("amaranth/sim/_pyclock.py", "PyClockProcess.run", arith="exact", bound="period/phase symbolic <= 2^20"),
             source.describe("amaranth/hdl/_time.py", "Period.__init__", arith="bounded stand-in", bound="integer arguments sampled")]
+    out += [source.describe(f, q, arith="real engine on symbolic values (all paths)", bound="designs / testbenches enumerated")
+            for q in ("PySimEngine.step_design", "PySimEngine.set_value", "PySimEngine.get_value", "_PyTriggerState.run",
+                      "_PyTriggerState.activate", "PySimEngine.add_trigger_combination")]
+    out += [source.describe("amaranth/sim/_async.py", q, arith="real engine on symbolic values (all paths)", bound="testbenches enumerated")
+            for q in ("SimulatorContext.set", "SimulatorContext.get", "AsyncProcess.run", "TriggerCombination.__await__",
+                      "TickTrigger.__await__")]
     return out
 
 
@@ -75,11 +92,13 @@ def tasks(tier):
     ts += [("sig-commute", W), ("sig-commit", W), ("mem", W, False, D), ("mem", W, True, 2), ("mem", 0, False, 1),
            ("engine-commit",), ("edge-waker",), ("timeline", 1), ("timeline", 2), ("timeline", 3), ("clock",),
            ("frame-rule",), ("tb-order",), ("period",)]
+    from . import c08_engine
+    ts += c08_engine.tasks(tier)
     return ts
 
 
 def canaries(tier):
-    return [("canary-commute",), ("canary-timeline",)]
+    return [("canary-commute",), ("canary-timeline",), ("canary-kernel-agrees",)]
 
 
 def _sigstate(w, s, init=0):
@@ -467,6 +486,9 @@ def unit_period():
 
 def run_task(task):
     k = task[0]
+    if k in ("engine-chain", "engine-proc", "kernel-agrees", "canary-kernel-agrees"):
+        from . import c08_engine
+        return c08_engine.run_task(task)
     if k == "sig-update":
         return unit_sig_update(task[1], task[2])
     if k == "sig-commute":
